@@ -229,7 +229,7 @@ def _fill(shape, elems):
 # aliasing): invisible to the exact-real symbolic model, so the REAL
 # modulate / demodulate are run on representation variants of one concrete
 # input and compared with the canonical call and with the property's oracle
-PROBE_UNSIGNED = False      # see _REP_OUTSIDE (genuine defect, reported)
+PROBE_UNSIGNED = True       # (defect found by this probe, fixed in /repo)
 
 _REP_ASSUME = (
     'data-representation probes (concrete differential runs of the real '
@@ -249,11 +249,7 @@ _REP_OUTSIDE = (
     'ndarray documented); float index arrays / Python float scalars for the '
     'table modulators (numpy refuses non-integer indexes: ValueError from '
     'modulate); boolean index arrays (numpy mask semantics)',
-    'unsigned-integer index arrays for BPSK.modulate: `1 - 2*bits` wraps '
-    '(np.unpackbits output gives 255 for bit 1; every bit then demodulates '
-    'to 0).  This is a genuine defect of the unchanged library, reported to '
-    'the maintainers of this check; its probe (PROBE_UNSIGNED) is disabled '
-    'until it is registered as a known finding')
+    'table modulators (M > 2) are probed with signed index dtypes only')
 
 
 def _layouts3(x):
